@@ -4,8 +4,18 @@ use crate::error::{Result, ZiporaError};
 use std::collections::VecDeque;
 use std::future::Future;
 use std::pin::Pin;
+#[cfg(not(zipora_verif))]
 use std::sync::atomic::{AtomicBool, AtomicUsize, Ordering};
+#[cfg(zipora_verif)]
+use crate::verif::sync::atomic::{AtomicBool, AtomicUsize};
+#[cfg(zipora_verif)]
+use std::sync::atomic::Ordering;
+#[cfg(not(zipora_verif))]
 use std::sync::{Arc, Mutex};
+#[cfg(zipora_verif)]
+use std::sync::Arc;
+#[cfg(zipora_verif)]
+use crate::verif::sync::Mutex;
 use std::time::{Duration, Instant};
 use tokio::task::JoinHandle;
 
